@@ -387,6 +387,38 @@ func (s *Sim) unlock(t *Task, mu any, kind string) {
 	s.mu.Unlock()
 }
 
+// tryAcquire is the model's side of TryLock / TryRLock.
+func (s *Sim) tryAcquire(t *Task, mu any, kind string, try func() bool) bool {
+	s.mu.Lock()
+	free := s.lockFree(mu, kind)
+	if free {
+		if t.held == nil {
+			t.held = map[any]string{}
+		}
+		t.held[mu] = kind
+		ls := s.locks[mu]
+		if ls == nil {
+			ls = &lockState{}
+			s.locks[mu] = ls
+		}
+		if kind == "r" {
+			ls.readers++
+		} else {
+			ls.writer = t
+		}
+	}
+	s.mu.Unlock()
+	if !free {
+		return false
+	}
+	if !try() {
+		// the model said free but the real lock is taken: give the model's hold back
+		s.unlock(t, mu, kind)
+		return false
+	}
+	return true
+}
+
 func (s *Sim) lockFree(mu any, kind string) bool {
 	ls := s.locks[mu]
 	if ls == nil {
